@@ -31,7 +31,7 @@
                      the next write_soon or the end and close_on_finish); write_soon
                      (WWs1..WWsRel); _flush_outbufs_below_high_watermark (WHw..);
                      close branch (WCl..), keep branch (WK..), worker-side send_continue
-                     (WSc..); R connected -> pull_trigger (WEnd1, WEnd2)
+                     (WSc.., its flush with do_close=False); R connected -> pull_trigger (WEnd1, WEnd2)
    Granularity: every acquire / try-acquire / release / wait / wake / notify of
    outbuf_lock and requests_lock, every send/recv, every pull_trigger and every
    read or write of will_close, close_when_flushed, connected,
@@ -125,7 +125,7 @@ Inductive wpc :=
 | WWsF (sent : bool) | WWs6 | WWsP | WWsRel | WCdRel
 | WCl1 | WCl2 | WCl3 | WCl4
 | WK1 | WK3 | WK4 | WK5 | WK5b | WK6
-| WScA | WSc1 | WSc2 (t : Z) | WScF | WScH1 (keep : bool) | WScH2 | WScH3 | WScH4 | WScRel | WScX | WScX2
+| WScA | WSc1 | WSc2 (t : Z) | WScF | WScRel | WScX | WScX2
 | WK7 | WEnd1 | WEnd2.
 
 Record state := mkSt {
@@ -493,7 +493,7 @@ Definition step_w (c : cfg) (s : state) (i : nat) (ch : choice) : option (state 
       if conn s && pend100 s && negb (sentc s)
       then ret (setw (set_pend100 s false) i WScA) [LR AConn]
       else ret (go WK7) [LR AConn]
-  (* send_continue() called from service() *)
+  (* send_continue(do_close=False) called from service() *)
   | WScA, CW _ =>
       if free (olock s) then ret (setw (set_olock s (Some me)) i WSc1) [LAcq LkO] else None
   | WSc1, CW _ => ret (setw (set_pend s (pend s + cont_len)) i (WSc2 (total s))) [LR ATot]
@@ -505,15 +505,9 @@ Definition step_w (c : cfg) (s : state) (i : nat) (ch : choice) : option (state 
       match r with
       | SOk n => if (1 <=? n) && (n <=? pend s)
                  then ret (set_total (set_pend s (pend s - n)) (total s - n)) l_flush_ok else None
-      | SZero => ret (go WScRel) [LSend]
-      | SDisc keep => ret (go (WScH1 keep)) [LSend]
+      | SZero | SDisc _ => ret (go WScRel) [LSend]   (* do_close=False since da3bf3a *)
       | SErr => ret (go WScX) [LSend]
       end
-  (* handle_close executed by the worker (F18) *)
-  | WScH1 keep, CW _ => ret (setw (set_pend (set_total s 0) (if keep then pend s else 0)) i WScH2) [LW ATot]
-  | WScH2, CW _ => ret (setw (set_conn s false) i WScH3) [LW AConn]
-  | WScH3, CW _ => ret (setw (set_ws s (notify_o (ws s))) i WScH4) [LNotify CvO]
-  | WScH4, CW _ => ret (setw (set_closed s true) i WScRel) [LW AConn; LMapDel]
   | WScRel, CW _ => ret (setw (set_olock s None) i WK7) [LRel LkO]
   | WScX, CW _ => ret (setw (set_olock s None) i WScX2) [LRel LkO]
   | WScX2, CW _ => ret (setw (set_rlock s None) i WAcq) [LRel LkR]
